@@ -18,7 +18,17 @@ find props -type d -name gen2 | while read -r d; do
         -e 's#github.com/PapaCharlie/go-restli/v2/#github.com/PapaCharlie/go-restli/#g' \
         -e 's#^package gen2#package gen1#' \
         -e 's#"verifh/props/\([a-z0-9]*\)/gen2"#"verifh/props/\1/gen1"#' \
+        -e 's#"verifh/codec"#"verifh/codec1"#' -e 's#"verifh/gen/all"#"verifh/genr/allr"#' -e 's#"verifh/gen/ks/#"verifh/genr/ks/#' \
         -e 's#[A-Za-z0-9_.]* /\*root:\([^*]*\)\*/#\1#g' \
         -e 's#GENERATION = "v2"#GENERATION = "root"#' "$f" > "$o/$(basename "$f")"
   done
+done
+
+# codec1: the codec table for the root module, derived from codec/
+rm -rf codec1; mkdir -p codec1
+for f in codec/*.go; do
+  case "$f" in *_test.go) continue;; esac
+  sed -e 's#github.com/PapaCharlie/go-restli/v2/#github.com/PapaCharlie/go-restli/#g' \
+      -e 's#^package codec$#package codec1#' \
+      -e 's#verifh/gen/#verifh/genr/#g' "$f" > "codec1/$(basename "$f")"
 done
